@@ -19,12 +19,20 @@ CONFIG = dict(
           "C12_lookup_on_listing, C12_lookup_on_traversal); the find API, the manifest/version helpers, GroupResource::new and image never fault (C12_find_api_no_fault); every Directory, DirectoryEntry, DataEntry "
           "reference, every name and data slice, every group header and entry, every slice returned by the find API and every reference carried by a traversal lies inside the section with its address aligned for its "
           "type, and Pe::resources() hands out a slice of the image (C12_try_from_safe, C12_entry_refs_safe, C12_name_safe, C12_entry_safe, C12_data_bytes_safe, C12_group_new_safe, C12_find_resource(_ex)_safe, "
-          "C12_manifest_safe, C12_version_info_safe, C12_group_image_safe, C12_group_list_safe, C12_pe_resources_safe, C12_walk_refs_safe, C12_walk_root_refs_safe); for an accepted group whose images are found with "
-          "the stated sizes and a file below 4 GiB, write produces exactly Ico.encode: header, entries with recomputed offsets 6+16n+sum, image data in entry order (C12_group_write_ico). "
-          "F4, F16, F26, F29 were rediscovered by the check, repaired in /repo and refuted for the code as it stood (C12_F*_refuted). "
-          "Tied to /repo by the correspondence check on sections built by an independent writer; the oracle also evaluates manifest/icons/cursors read off the implementation's listing and the Display/eq round trip.",
-    note="Trusted: Coq kernel, extraction and OCaml glue (UTF-8 decoding of query strings, the item parser), the harness's independent section writer; Spec/ResTree.v and Spec/Ico.v as the reading of the "
-         "property text; the hand-copied RSRC_TYPES table (every name is queried by the generator); std::path component splitting (paths are given to the model as component lists: '/' + components "
+          "C12_manifest_safe, C12_version_info_safe, C12_group_image_safe, C12_group_list_safe, C12_pe_resources_safe, C12_walk_refs_safe, C12_walk_root_refs_safe); the text of the tree printer (Model/ResourcesArt.v, compared byte by byte with the implementation's) has exactly "
+          "display_lines lines on any section (C12_display_text_lines); reassembly: for an accepted ICON group (idType 1) whose images are found with "
+          "the stated sizes and a file below 4 GiB, write produces exactly Ico.encode: header, entries with recomputed offsets 6+16n+sum, image data in entry order (C12_group_write_ico; restated: it used to "
+          "cover idType 2 through the same encoder, which was the code's own assumption); for an accepted CURSOR group (idType 2), after the F44 repair, write produces exactly Cur.encode_file - the .cur "
+          "layout with hotspots in the entries, 8-bit sizes, sizes and offsets without the 4-byte hotspot headers - of the cursor images that the 16-bit group entries and the RT_CURSOR resources denote "
+          "(C12_group_write_cur_pieces), reading back what a resource compiler stores for a .cur file gives the file (C12_cur_resources_roundtrip), hence compiling ANY .cur file (Cur.to_resources) and "
+          "reassembling the group reproduces it (C12_group_write_cur, C12_group_write_cur_image), up to bColorCount/bReserved which the resource format does not keep (written as 0). "
+          "F4, F16, F26, F29 were rediscovered by the check, repaired in /repo and refuted for the code as it stood (C12_F*_refuted); F44 (cursor groups written in the icon layout) was found by the independent "
+          "audit - spec, harness and oracle had copied the code's assumption - rediscovered by the check once the harness stored real cursors, repaired and refuted (C12_F44_cursor_group_orig_refuted). "
+          "Tied to /repo by the correspondence check on sections built by an independent writer; the oracle compares write with the original .ico AND the original .cur (independent writers), evaluates "
+          "manifest/icons/cursors read off the implementation's listing and the Display/eq round trip.",
+    note="Trusted: Coq kernel, extraction and OCaml glue (UTF-8 decoding of query strings, UTF-8 encoding of the printed text, the item parser), the harness's independent section, .ico and .cur writers and its "
+         "resource-compiler layout for cursors; Spec/ResTree.v, Spec/Ico.v (.ico) and Spec/Cur.v (.cur file + RT_GROUP_CURSOR / RT_CURSOR layout, from the references in group.rs) as the reading of the "
+         "property text; the hand-copied Error::to_str messages in Model/ResourcesArt.v; the hand-copied RSRC_TYPES table (every name is queried by the generator); std::path component splitting (paths are given to the model as component lists: '/' + components "
          "joined by '/', components non-empty, not '.'/'..', without '/' or NUL); str::from_utf8 is modelled by a validity test; io::Write is an append-all sink (Vec<u8>); VersionInfo::try_from is modelled "
          "up to its alignment test (C13 covers the rest); serde output and Debug are not covered. Bit tests on u32 fields are written arithmetically in the model. "
          "The repaired fsck/printer fail (stop) on trees deeper than 32 or whose unfolding has more than len/8 entries: sharing a sub-directory between several parents can exceed that budget although the "
@@ -33,12 +41,15 @@ CONFIG = dict(
     shrink_fields=["q"],
     quick_cases=16000, thorough_cases=200000, case_seconds=4,
     correspondence="Model/Resources.v {root, walk (entries/named_entries/id_entries/name/is_dir/entry/bytes/size/code_page), fsck, display_lines, dir_get/get_dir/get_data/first*, "
-                   "find_resource(s)/find_resource_ex/find_path, manifest, version_info, group_list (icons/cursors), group_new/g_entries/g_image/group_write, pe_resources} vs "
+                   "find_resource(s)/find_resource_ex/find_path, manifest, version_info, group_list (icons/cursors), group_new/g_entries/g_image/group_write (icon and cursor branch), pe_resources}, Model/ResourcesArt.v display_text vs "
                    "pelite::resources::{Resources, Directory, DirectoryEntry, DataEntry, Name, FindError}, resources::group::GroupResource, Display for Resources, pe64::Pe::resources()",
     rule="resource sections from an independent writer (directories, then name strings, data entries, data; explicit offsets): free-form trees of depth 1..4 with 0..4 entries per directory, named and ID "
          "entries, UTF-16 names incl. non-BMP pairs, unpaired surrogates, '#', digits, '/', empty names, ids {0, 0xFFFF, 2^31-1, 1..24, random}, empty directories and empty data; typed trees "
-         "(ICON/GROUP_ICON, CURSOR/GROUP_CURSOR with 0..4 images, MANIFEST with valid/invalid UTF-8, VERSION, a named type) with group corruptions (reserved/type/length/entry bytes, sizes adding up "
-         "beyond u32, missing images, a data entry where a directory is expected); structural variations: shared children, directories containing themselves or an ancestor (1..3 back references), "
+         "(ICON/GROUP_ICON with 0..4 images; CURSOR/GROUP_CURSOR: three in four REAL cursor sets - an independent .cur writer, then the resource-compiler layout: 16-bit width and doubled height, planes/bit count "
+         "from the DIB header, hotspot in front of every RT_CURSOR, dwBytesInRes counting it; 0..4 images of 16/32/48/64/256 (=0 in the file byte)/1/255/non-square/random sizes, hotspots 0 / size-1 / 0xFFFF / random, "
+         "DIBs that are empty, shorter than a header, odd-sized, PNG or a BITMAPINFOHEADER with bits - the rest arbitrary bytes in a type-2 group; MANIFEST with valid/invalid UTF-8, VERSION, a named type) with "
+         "group corruptions (reserved/type/length/entry bytes, dwBytesInRes 0..60 incl. below the hotspot size, sizes adding up beyond u32, missing images, a data entry where a directory is expected); "
+         "limit shapes (1 in 41): chains of 30..34 nested directories and shared-child graphs whose unfolding has len/8 - 1, len/8, len/8 + 1 entries (trailing padding sets the budget); structural variations: shared children, directories containing themselves or an ancestor (1..3 back references), "
          "dangling directory/data/name references, odd name offsets, data ranges below the VA / beyond the section / size 2^32-1, data at odd offsets, header counts that disagree with the name kinds, "
          "duplicate names; malformed stream: 1..3 field pokes with boundary values, truncation anywhere; placement at addresses 0,1,2,4,6,8,10,12 mod 16; VA in {0, 0xFFFFF000, 0x1002, random, pages}; "
          "observer depth 32 / budget len/8 (80%), or small depth / budget; 26 queries per case: present and absent names as Id, '#<id>', '#0<id>', '#TYPE', UTF-8 and UTF-16, odd forms "
@@ -46,8 +57,10 @@ CONFIG = dict(
          "Pe::resources() on a mapped PE32+ view (RVA 0 / 2 / 4 mod 8, Size smaller, equal, 2^32-1); every case also prints Name::Id(n) and compares it with its own text three ways for n in {0, 9, 10, 99, 100, 65535, 65536, 2^31-1, 2^31, 2^32-1} and the ids of its get queries. Non-trivial: the root is accepted and has at least one entry.",
     trusted_base=["Spec/ResTree.v (repr, flatten, name_matches, listing lookups), Spec/ResSafety.v and Spec/Ico.v as the reading of the property text",
                   "hand-copied RSRC_TYPES table in Model/Resources.v; std::path splitting; str::from_utf8 modelled as a validity test",
-                  "harness/src/bin/resources.rs independent resource-section and .ico writer"],
+                  "harness/src/bin/resources.rs independent resource-section, .ico and .cur writers, resource-compiler layout of cursors",
+                  "Spec/Cur.v: the .cur file and RT_GROUP_CURSOR / RT_CURSOR layouts (bColorCount / bReserved of the file are not kept by the resource format: canonical 0)"],
     assumptions=["usize is 64 bits; section bytes are bytes (sec_ok) where a theorem says so; query strings are valid Unicode scalar sequences; stored ids < 2^32",
-                 "fsck accepts at most 32 nested directories and len/8 visited entries (repair of F16); write reports InvalidData when offsets exceed u32 (repair of F26)"],
+                 "fsck accepts at most 32 nested directories and len/8 visited entries (repair of F16); write reports InvalidData when offsets exceed u32 (repair of F26) and when a cursor entry has no resource of at least 4 bytes or dwBytesInRes < 4 (repair of F44)",
+                 "cursor files: width < 2^16, 2*height < 2^16, hotspots < 2^16, resource ids < 2^16, file below 4 GiB (Cur.image_ok; the ranges of the 16-bit group fields)"],
     open_statements=[],
 )
